@@ -439,6 +439,10 @@ func verifyAndFillConfig(cfg *ResponseConfig, nowMS int) error {
 	if cfg.MinimumUpdatePeriodS != nil && *cfg.MinimumUpdatePeriodS <= 0 {
 		return fmt.Errorf("minimumUpdatePeriod must be > 0")
 	}
+	if cfg.getAvailabilityTimeOffsetS() < 0 {
+		// Would be declared in the MPD, but is ignored when segments and timelines are generated
+		return fmt.Errorf("availabilityTimeOffset must not be negative")
+	}
 	if cfg.getAvailabilityTimeOffsetS() > 0 && cfg.LatencyTargetMS == nil {
 		cfg.LatencyTargetMS = Ptr(defaultLatencyTargetMS)
 	}
